@@ -154,8 +154,10 @@ YEARS = [None, "2020", "2019-2021", "2019 - 2021", "1999"]
 
 
 def copyright_prefixes():
+    """(key of the prefix table or None, prefix text)"""
     from reuse.copyright import _COPYRIGHT_PREFIXES
-    return sorted(set(_COPYRIGHT_PREFIXES.values())) + ["SPDX-SnippetCopyrightText:", "Copyright (c)", "SPDX-FileCopyrightText: (c)"]
+    return sorted(_COPYRIGHT_PREFIXES.items()) + [(None, "SPDX-SnippetCopyrightText:"), (None, "Copyright (c)"),
+                                                  (None, "SPDX-FileCopyrightText: (c)"), (None, "SPDX-SnippetCopyrightText: ©")]
 
 
 # --------------------------------------------------------------------------
@@ -318,12 +320,15 @@ def grid_cases(tier, rng, per_combo):
                     value = rng.choice(exprs)
                 elif kind == "N":
                     value = rng.choice(HOLDERS + EDGE_HOLDERS if rng.random() < 0.25 else HOLDERS)
-                else:
+                parts = None
+                if kind == "C":
                     y = rng.choice(YEARS)
                     h = rng.choice(HOLDERS + EDGE_HOLDERS if rng.random() < 0.25 else HOLDERS)
-                    value = "%s %s%s" % (rng.choice(prefixes), (y + " ") if y else "", h)
+                    pkey, ptext = rng.choice(prefixes)
+                    value = "%s %s%s" % (ptext, (y + " ") if y else "", h)
+                    parts = {"p": pkey, "ptext": ptext, "y": y, "h": h}
                 eol = rng.choice(["\n", "\n", "\r\n", "\r"])
-                yield {"style": sname, "form": form, "f": f, "deco": deco["id"], "kind": kind, "value": value, "eol": eol}
+                yield {"style": sname, "form": form, "f": f, "deco": deco["id"], "kind": kind, "value": value, "eol": eol, "parts": parts}
 
 
 def case_build(case):
@@ -509,19 +514,29 @@ class TheoremStream(Stream):
     name = "theorem"
     rule = ("for the physical tag line of every grid case (licence and contributor tags) the compiled driver evaluates the hypotheses of "
             "C02_tag_value_exact (Spec.WFValue) or, for framed lines, C02_frame (Spec.WFFramed) on the generated END pattern; where they "
-            "hold find_spdx_tag on that line must return exactly [planted value]; non-trivial = hypotheses hold")
+            "hold find_spdx_tag on that line must return exactly [planted value]; for copyright lines with a prefix of the table the "
+            "hypotheses of C02_copyright_exact_partial (Spec.WFNotice): the three patterns must give exactly that prefix, year, holder and "
+            "notice; non-trivial = hypotheses hold")
 
     def cases(self, tier, rng):
         for case in grid_cases(tier, rng, 2 if tier == "quick" else 10):
             if case["kind"] in "LN":
                 for le in ("", "\n"):
                     yield dict(case, le=le, eol="\n")
+            elif case["parts"]["p"] is not None and "frame" not in case["deco"]:
+                yield dict(case, le="", eol="\n")
 
     def impl(self, case):
         from reuse import extract
         b = case_build(case)
         if b is None:
             return "skip"
+        if case["kind"] == "C":
+            m = textcorr.impl_search(b["line"])
+            pr = case["parts"]
+            want = (pr["ptext"], pr["y"], pr["h"], case["value"])
+            got = None if m is None else (m.groupdict()["prefix"], m.groupdict()["year"], m.groupdict()["statement"], m.groupdict()["copyright"])
+            return ("ok|" if got == want else "bad|") + enc(repr(got))
         pat = extract._LICENSE_IDENTIFIER_PATTERN if case["kind"] == "L" else extract._CONTRIBUTOR_PATTERN
         got = list(extract.find_spdx_tag(b["line"] + case["le"], pat))
         return ("ok|" if got == [b["v"]] else "bad|") + enc_list(got)
@@ -530,6 +545,16 @@ class TheoremStream(Stream):
         b = case_build(case)
         if b is None:
             return []
+        if case["kind"] == "C":
+            y = case["parts"]["y"]
+            if y is None:
+                yf = "none"
+            elif len(y) == 4:
+                yf = "single/" + enc(y)
+            else:
+                mid = y[4:-4]
+                yf = "range/%s/%s/%s/%s" % (enc(y[:4]), "1" if mid.startswith(" ") else "0", "1" if mid.endswith(" ") else "0", enc(y[-4:]))
+            return ["c02chyp\t%s\t%s\t%s\t%s\t%s" % (case["parts"]["p"], yf, enc(case["parts"]["h"]), enc(b["pre"]), enc(b["trail"]))]
         if b["framed"]:
             return ["c02framed\t%s\t%s\t%s\t%s\t%s\t%s\t%s" % (case["kind"], enc(b["pre"]), enc(b["blanks"]), enc(b["v"]), enc(b["ws"]),
                                                              enc(b["trail"]), enc(case["le"]))]
@@ -537,7 +562,13 @@ class TheoremStream(Stream):
                                                    enc(case["le"]))]
 
     def agree(self, case, impl_out, model_out):
-        if model_out != "1":
+        if case["kind"] == "C":
+            hyp, line = model_out.split("|")
+            if hyp != "1":
+                return True
+            if dec(line) != case["value"]:
+                return False          # the theorem's line is not the planted notice
+        elif model_out != "1":
             return True
         self._hyp = getattr(self, "_hyp", set())
         self._hyp.add(self.key(case))
